@@ -76,7 +76,7 @@ def gen_case(rng, tier="quick", force=None):
         else:
             ty.append(types[:])
     pos = [[[dec(rng, -1.5, float(L[j]) + 1.5, 3) for j in range(d)] for _ in range(N)] for _ in range(T)]
-    c = {"d": d, "T": T, "N": N, "K": K, "L": L, "ty": ty, "pos": pos}
+    c = {"d": d, "T": T, "N": N, "K": K, "L": L, "ty": ty, "pos": pos, "again": rng.choice([0, 0, 0, 1, 2])}
     if rng.random() < 0.5:
         nq = rng.randint(1, 24 if big else 10)
         vs = []
@@ -193,6 +193,9 @@ def real_run(c, outputfile=None):
         kw["outputfile"] = outputfile
         kw["saveqvectors"] = True
     obj = sq(snapshots_of(c), **kw)
+    # object history: earlier compute calls on the SAME object (the judged result is the last one)
+    for k in range(c.get("again", 0)):
+        (obj.getresults if k == 0 else obj.unary)()
     res = obj.getresults()
     if res is None:
         raise ValueError("getresults() returned None")
